@@ -1,17 +1,17 @@
 #!/bin/sh
 # tools/trybenign.sh <patch.diff> [checks...]: apply a behaviour-preserving refactoring and run the
-# quick checks; every check must exit 0. Default: all 20.
+# quick checks; every check must exit 0. Default: all 20. (VERIF_DIR / VERIF_REPO as in tryseed.sh)
 patch="$1"; shift
+V="${VERIF_DIR:-/verif}"; R="${VERIF_REPO:-/repo}"
 checks="$@"; [ -z "$checks" ] && checks="C01 C02 C03 C04 C05 C06 C07 C08 C09 C10 C11 C12 C13 C14 C15 C16 C17 C18 C19 C20"
-# runs against a changed tree must not overwrite the evidence of the unchanged one
 export VERIF_EVIDENCE_DIR=/tmp/verif_seed_evidence; mkdir -p $VERIF_EVIDENCE_DIR
-cd /repo || exit 2
-if ! git diff HEAD --quiet; then echo "trybenign: /repo not clean"; exit 2; fi
+cd "$R" || exit 2
+if ! git diff HEAD --quiet; then echo "trybenign: $R not clean"; exit 2; fi
 git apply "$patch" || { echo "trybenign: patch does not apply"; exit 2; }
 bad=0
 for c in $checks; do
-  out=$(cd /verif && ./vcheck "$c" --tier quick 2>&1); rc=$?
+  out=$(cd "$V" && ./vcheck "$c" --tier quick 2>&1); rc=$?
   if [ $rc -ne 0 ]; then bad=1; echo "ALARM $c rc=$rc: $(echo "$out" | grep -E '^(VIOLATION|BROKEN)|signature' | head -4 | cut -c1-200 | tr '\n' '|')"; fi
 done
-git -C /repo reset -q --hard HEAD && git -C /repo clean -fdq
+git -C "$R" reset -q --hard HEAD && git -C "$R" clean -fdq
 [ $bad -eq 0 ] && echo "silent: $(basename $patch) ($checks)"
